@@ -445,6 +445,8 @@ def run(repo, rep):
     from . import c04, c08
 
     rep.run_borrowed(c04, {"C04-d": "C03-g"}, repo)
+    rep.clause("C03-t", "memory an operation reads is ordered behind whoever defines it: every address-bearing operand (IFM2 included) enters the access set the waits are computed from, and the LUT special case of the block dependency protects the table of the *previous* operation [rules shared with C04-b, C04-e]")
+    rep.run_borrowed(c04, {"C04-b": "C03-t", "C04-e": "C03-t"}, repo)
     rep.run_borrowed(c08, {"C08-f": "C03-g"}, repo)
 
 
